@@ -339,10 +339,17 @@ func genStores(t *rapid.T) SCase {
 const ruleC15Stores = "histories of <= 14 Produce / Remove operations (3 objects with nested names, <= 4 explicit versions each from {1,2,3,254..257,65535..65537,2^32-1,2^32,2^63+5}, 1..4 segments, removals of a segment / a metadata packet / a version / all metadata / an object) applied to a MemoryStore and a BoltStore through object.Client.Produce; after every operation exact Get of every name ever published and prefix Get of the root, /t, every object, its metadata prefix, every version prefix are compared with the reference (newest version under the prefix; ties free) and between the stores. Non-trivial: >= 1 prefix query over packets of >= 2 different versions"
 
 func TestC15Stores(t *testing.T) {
+	singleP(t)
 	rec := evid.New("C15", "TestC15Stores", ruleC15Stores)
 	evid.Check(t, rec, genStores, execStores)
 }
 
-func TestC15StoresReplay(t *testing.T) { evid.Replay(t, "TestC15Stores", execStores) }
+func TestC15StoresReplay(t *testing.T) {
+	singleP(t)
+	evid.Replay(t, "TestC15Stores", execStores)
+}
 
-func TestC15StoresRegress(t *testing.T) { evid.Regress(t, "C15", "TestC15Stores", execStores) }
+func TestC15StoresRegress(t *testing.T) {
+	singleP(t)
+	evid.Regress(t, "C15", "TestC15Stores", execStores)
+}
